@@ -33,7 +33,7 @@ ROOT = '{ROOT}'
 THEOREMS = ['BB.Props.C17.' + n for n in (
     'cli_failure_untouched_hex', 'cli_failure_untouched', "cli_failure_untouched'", 'cli_success_files',
     'cli_success_hex_decodes', 'plan_error_untouched', 'plan_error_ne0', 'bad_offset_exits', 'labelText_lines',
-    'failure_clause_needs_hex_range', 'hex_roundtrip', 'hexOk_encode')]
+    'plan_offset_in_range', 'out_of_range_offset_exits', 'cli_failure_untouched_range', 'hex_roundtrip', 'hexOk_encode')]
 
 RULE = ('cases = small seeded programs (progs.gen_program without filler runs; optionally an `include part.asm` found in an -i '
         'directory, or `include GD32VF103.asm` with --include-definitions) x options: -c, -v, -i DIR (relative / absolute), '
@@ -295,7 +295,7 @@ def check_case(c, repo=None):
                         bad('stray-file', 'the run also changed %s' % rel(q))
 
         # correspondence with the Lean model of cli_main
-        if hclass != 'wide':
+        if True:
             res['corr'], detail = model_compare(c, root, before, changed, rc, defs_dir if o['defs'] else None)
             if res['corr'] == 'differ':
                 res['corr_detail'] = detail
